@@ -17,7 +17,8 @@ SPC = "pycaption/scc/specialized_collections.py"
 
 
 def run(ctx, report):
-    report.section("scan structure", structural, ctx, report)
+    report.structural_section("scan structure", "R-MUSTRAISE / R-E2E: read() folded on prepared captions and the whole reader on "
+                              "generated streams", structural, ctx, report)
     from . import scc_read_fold, scc_e2e_fold
     # read() folded around a stubbed decoder: every list of up to N prepared captions over the boundary row lengths
     report.section("read() on prepared captions", scc_read_fold.run, ctx, report, {
